@@ -1158,6 +1158,14 @@ fn emit_fn(
         // all matching sites (or only the nth when `#n` is given); hints are proof help, so a hint whose anchor does not
         // occur is skipped (recorded), never a reason to stop
         let mut sites: Vec<usize> = Vec::new();
+        if h.needle == "^" {
+            // start of the function body (after the ghost parameter snapshots)
+            let pos = body.iter().position(|l| !l.contains("/*vxparam*/") && !l.contains("/*vxguard*/")).unwrap_or(0);
+            for (j, l) in h.lines.iter().enumerate() {
+                body.insert(pos + j, format!("{l} /*vxhint*/"));
+            }
+            continue;
+        }
         for (k, l) in body.iter().enumerate() {
             if l.contains("/*vxhint*/") {
                 continue;
